@@ -11,7 +11,9 @@ stream   1-3 messages (built by the real SendingMessage, by the harness's own en
          length-field rewrites, annotation/data boundary shifts, chunk-length rewrites, insert/delete).
          About half of the stream cases (and of the concurrent threads) first push the built messages through the
          real SocketConnection.send -> send_data into a scripted sending socket (blocking: sendall; with a timeout:
-         send() returning short counts / EAGAIN); what that socket accepted is what the receiver gets.
+         send() returning short counts / EAGAIN); what that socket accepted is what the receiver gets. A blocking
+         sendall() may also fail with a retryable errno after k > 0 bytes of a message: the receiver must then decode
+         the messages before it and nothing else (for it the stream is truncated inside that message).
 direct   the same bytes handed to ReceivingMessage(header, payload) without a socket.
 sender   sender-side inputs only: bad annotation keys, str values, sizes around MAX_MESSAGE_SIZE.
 sweep    one small message and one fault kind applied at EVERY offset (truncate after o bytes / flip byte o).
@@ -245,6 +247,10 @@ class ScriptSendSock:
         self.buf = bytearray()
         self.nsend = self.nshort = self.nerr = 0
         self.row = 0
+        self.fail = snd.get("fail")        # blocking mode: sendall number `call` transmits k > 0 bytes, then a retryable errno
+        self.nsendall = 0
+        self.fired = None                  # (sendall call index, bytes that went out before the errno)
+        self.exc = None                    # what SocketConnection.send raised (the caller stops sending then)
 
     def settimeout(self, t):
         self.timeout = t
@@ -265,7 +271,17 @@ class ScriptSendSock:
         if self.sched is not None:
             self.sched.yield_point("send")
         self.nsend += 1
-        self.buf += bytes(data)
+        data = bytes(data)
+        call = self.nsendall
+        self.nsendall += 1
+        f = self.fail
+        if f and self.fired is None and call == f.get("call", 0) and len(data) >= 2:
+            k = 1 + f.get("off", 0) % (len(data) - 1)
+            self.buf += data[:k]
+            self.fired = (call, k)
+            name = f.get("err", "EAGAIN")
+            raise OSError(_RETRY_ERRNOS.get(name, errno.EAGAIN), "scripted %s after %d of %d bytes" % (name, k, len(data)))
+        self.buf += data
 
     def send(self, data, flags=0):
         if self.sched is not None:
@@ -295,7 +311,11 @@ def _send_through(raws, snd, sched=None):
     sock = ScriptSendSock(snd, sched)
     conn = SU.SocketConnection(sock, keep_open=True)
     for r in raws:
-        conn.send(r)
+        try:
+            conn.send(r)
+        except Exception as x:  # noqa - the caller would drop the connection now
+            sock.exc = x
+            break
     return sock
 
 
@@ -461,7 +481,7 @@ class WireWorld(World):
               "chunk_overrun_rejected", "reencoded", "sweep_cut", "sweep_flip",
               "concurrent", "concurrent_preempted", "concurrent_overlap",
               "sent_timeout_mode", "short_send", "memoryview_writable_annotation", "memoryview_slice_annotation",
-              "echo_writable_memoryview", "annotation_dict_reused", "annotation_buffer_mutated_in_place", "annotation_family"]
+              "echo_writable_memoryview", "sendall_failed_midway", "annotation_dict_reused", "annotation_buffer_mutated_in_place", "annotation_family"]
     RULE = ("plan = (COMPRESSION, MAX_MESSAGE_SIZE, correlation id, USE_MSG_WAITALL; 8-16 cases, each a stream of 1-3 "
             "messages with boundary-biased fields + sentinel + transport script (fragmentation seed, errno/short-read "
             "probabilities, truncation offset, mutation list) or a sender-only input); distinct = distinct plan digest / "
@@ -526,7 +546,7 @@ class WireWorld(World):
                 tr["mode"] = "rand"
                 tr["kmax"] = max(tr["kmax"], 7)
             threads.append({"corr": corr, "msgs": msgs, "tr": tr, "order": rng.choice(["batch", "alt"]),
-                            "snd": self._gen_snd(rng) if rng.random() < 0.6 else None})
+                            "snd": dict(self._gen_snd(rng), fail=None) if rng.random() < 0.6 else None})
         return {"k": "conc", "threads": threads}
 
     @staticmethod
@@ -786,8 +806,13 @@ class WireWorld(World):
     @staticmethod
     def _gen_snd(rng):
         """the sending socket: blocking (sendall) or with a timeout (send loop; short writes and EAGAIN possible)"""
-        return {"timeout": rng.choice([None, 0.5, 5.0, 5.0]), "kmax": rng.choice([1, 3, 17, 100, 1000, 59999, 60001, 100000]),
-                "p_short": rng.choice([0.3, 0.8, 1.0]), "p_err": rng.choice([0, 0, 0.1, 0.3]), "seed": rng.getrandbits(24)}
+        snd = {"timeout": rng.choice([None, 0.5, 5.0, 5.0]), "kmax": rng.choice([1, 3, 17, 100, 1000, 59999, 60001, 100000]),
+               "p_short": rng.choice([0.3, 0.8, 1.0]), "p_err": rng.choice([0, 0, 0.1, 0.3]), "seed": rng.getrandbits(24)}
+        if snd["timeout"] is None and rng.random() < 0.5:
+            # sendall() is not resumable: k > 0 bytes of one message go out, then a retryable errno
+            snd["fail"] = {"call": rng.randrange(3), "off": rng.choice([0, 1, 5, 38, 39, 40, 47, rng.randrange(400), rng.getrandbits(17)]),
+                           "err": rng.choice(["EAGAIN", "EINTR", "EWOULDBLOCK", "EINPROGRESS"])}
+        return snd
 
     def _gen_sender_case(self, rng, cfg):
         m = self._gen_msg(rng, cfg, allow_big=False)
@@ -896,6 +921,10 @@ class WireWorld(World):
                 p = copy.deepcopy(plan)
                 p["cases"][i]["snd"] = None
                 yield p
+                if c["snd"].get("fail"):
+                    p = copy.deepcopy(plan)
+                    p["cases"][i]["snd"].pop("fail")
+                    yield p
             if c.get("mode") != "direct" and not c.get("cut"):
                 p = copy.deepcopy(plan)
                 p["cases"][i]["mode"] = "direct"
@@ -1002,7 +1031,7 @@ class WireWorld(World):
                         if not isinstance(raw, bytes):
                             break
                         if th.get("snd"):
-                            raw = bytes(_send_through([raw], dict(th["snd"], seed=th["snd"].get("seed", 0) + k), sched).buf)
+                            raw = bytes(_send_through([raw], dict(th["snd"], seed=th["snd"].get("seed", 0) + k, fail=None), sched).buf)
                         sock = ScriptSock(raw, dict(th.get("tr") or {}, eof=True, seed=(th.get("tr") or {}).get("seed", 0) + k), sched=sched)
                         if not isinstance(read(SU.SocketConnection(sock, keep_open=True), k), dict):
                             break
@@ -1013,7 +1042,7 @@ class WireWorld(World):
                         if not isinstance(raw, bytes):
                             break
                         raws.append(raw)
-                    wire = bytes(_send_through(raws, th["snd"], sched).buf) if th.get("snd") else b"".join(raws)
+                    wire = bytes(_send_through(raws, dict(th["snd"], fail=None), sched).buf) if th.get("snd") else b"".join(raws)
                     sock = ScriptSock(wire, dict(th.get("tr") or {}, eof=True), sched=sched)
                     conn = SU.SocketConnection(sock, keep_open=True)
                     for k in range(len(raws)):
@@ -1482,20 +1511,31 @@ class WireWorld(World):
             o += len(r)
         sentinel = bytes.fromhex(case.get("sent") or "")
         S = b"".join(raws)
+        send_failed = None
         if case.get("fam"):
             ctx.probe("annotation_family")
         ssock = None
         if case.get("snd") and case.get("mode") != "direct":
             # the messages travel through the real SocketConnection.send -> send_data first (blocking socket: sendall;
             # socket with a timeout: send loop with short writes / EAGAIN); what that put on the wire is what is delivered
-            try:
-                ssock = _send_through(raws, case["snd"])
-            except Exception as x:  # noqa
+            snd = dict(case["snd"])
+            if snd.get("fail") and (case.get("cut") or case.get("mut") or snd.get("timeout") is not None):
+                snd.pop("fail")          # one transport story per case
+            if snd.get("fail"):
+                snd["fail"] = dict(snd["fail"], call=snd["fail"].get("call", 0) % len(raws))
+            ssock = _send_through(raws, snd)
+            if ssock.exc is not None and ssock.fired is None:
+                x = ssock.exc
                 ctx.sched.ev("send-raised", i, type(x).__name__)
                 ctx.violate("valid-rejected", "send:" + type(x).__name__, "case %d: sending %d intact messages (%d bytes) over a socket with "
                             "timeout=%r raised %r" % (i, len(raws), len(S), case["snd"].get("timeout"), x))
                 return
-            ctx.sched.sev("snd", i, ssock.nsend, ssock.nshort, ssock.nerr, len(ssock.buf))
+            ctx.sched.sev("snd", i, ssock.nsend, ssock.nshort, ssock.nerr, len(ssock.buf),
+                          type(ssock.exc).__name__ if ssock.exc is not None else None)
+            if ssock.fired is not None:
+                send_failed = ssock.fired
+                ctx.fault("sendall_partial_errno")
+                ctx.nontrivial = True
             S = bytes(ssock.buf)
             if ssock.timeout is not None:
                 ctx.probe("sent_timeout_mode")
@@ -1524,7 +1564,19 @@ class WireWorld(World):
         region = None
         tr = dict(case.get("tr") or {})
         rst = False
-        if case.get("cut") and mutated_from is None:
+        if send_failed is not None:
+            # a blocking sendall() failed after k bytes of message j: whatever the sender does next (it should raise and
+            # drop the connection), the receiver may decode the messages before j and NOTHING else - for it this is a
+            # stream truncated inside message j. What is delivered is what the sending socket really accepted.
+            j, k = send_failed
+            st, en = bounds[j]
+            cut = st + k
+            cut_msg = j
+            h = N.parse_header(raws[j][:40])
+            alen = h["alen"] if h is not None else 0
+            region = "header" if k < 40 else "annotations" if k < 40 + alen else "payload"
+            tr["eof"] = True
+        elif case.get("cut") and mutated_from is None:
             j = case["cut"].get("msg", 0) % len(raws)
             st, en = bounds[j]
             cut = st + case["cut"].get("off", 0) % max(1, en - st)
@@ -1595,6 +1647,8 @@ class WireWorld(World):
                     elif status == "truncated":
                         if isinstance(x, E.ConnectionClosedError):
                             ctx.probe("truncated_" + region)
+                            if send_failed is not None:
+                                ctx.probe("sendall_failed_midway")
                         else:
                             ctx.violate("unexpected-exception-class", "truncated", "case %d %s: stream truncated in the %s "
                                         "(%d of %d bytes) raised %r instead of ConnectionClosedError"
